@@ -29,6 +29,7 @@ import (
 	"os"
 	"path/filepath"
 	"regexp"
+	"runtime"
 	"sort"
 	"strconv"
 	"strings"
@@ -122,6 +123,8 @@ type walDrv struct {
 	where                                              string
 	typeFlips, misname, entiLost, procOnly, hole0      bool
 	purgedRecs, nPurged, nReleases, nSyncs             int
+	segFirst                                           bool
+	nConcBatches                                       int
 	maxEntBytes                                        int
 	lastEnt, maxMark                                   int
 	imgBase                                            string
@@ -559,7 +562,7 @@ func (d *walDrv) emitImage(kind string, off int64, segs []*wSeg, tailImg []byte,
 		where = d.where
 	}
 	pan := strings.HasPrefix(res.Err, "PANIC") || strings.HasPrefix(res2.Err, "PANIC") || strings.HasPrefix(v.Err, "PANIC") || strings.HasPrefix(ver, "PANIC")
-	d.tw.Emit(trace.M{"ev": "image", "panic": pan, "kind": mk, "how": kind, "hasmarker": hasMarker, "where": where, "dur": d.durCount(segs), "off": off, "n": n, "tail": tail, "flip": flipRec,
+	d.tw.Emit(trace.M{"ev": "image", "panic": pan, "kind": mk, "how": kind, "hasmarker": hasMarker, "where": where, "segfirst": d.segFirst || (kind == "hole" && flipRec == d.purgedRecs+2), "dur": d.durCount(segs), "off": off, "n": n, "tail": tail, "flip": flipRec,
 		"snap": snap, "valid": v, "verify": ver, "res": res, "rep": rep, "res2": res2})
 	d.nImages++
 	d.byKind[kind]++
@@ -739,6 +742,24 @@ func (d *walDrv) images(dense bool) {
 		gbase += nf
 	}
 	if d.hole0 {
+		// ... and the length field of every segment's leading crc record, all 64 bits
+		hb := d.purgedRecs
+		for si, s := range segs {
+			if len(s.frames) > 0 && s.frames[0].end <= d.durOff[s.name] {
+				f := s.frames[0]
+				for p := f.off; p < f.off+8; p++ {
+					for bit := uint(0); bit < 8; bit++ {
+						img := append([]byte(nil), s.data...)
+						img[p] ^= 1 << bit
+						d.where = "len"
+						d.segFirst = true
+						d.emitImage("flip", p*8+int64(bit), segs, img, si, hb+1, 0)
+						d.segFirst = false
+					}
+				}
+			}
+			hb += len(s.frames)
+		}
 		return
 	}
 	// single bit flips in the synced region of any segment
@@ -770,6 +791,11 @@ func (d *walDrv) images(dense bool) {
 				}
 			}
 			for _, p := range pos {
+				if fi == 0 && p < f.off+8 && !d.hole0 {
+					// known finding C05-crc-chain-vacuous-after-first-crc: the length field of a
+					// segment's leading crc record (zero length = "empty file", running CRC 0)
+					continue
+				}
 				bits := []uint{uint(d.rng.Intn(8))}
 				if (dense && p < f.off+8) || d.typeFlips {
 					bits = []uint{0, 1, 2, 3, 4, 5, 6, 7}
@@ -980,6 +1006,199 @@ func (d *walDrv) history(calls []wCall, dense bool, imgEvery int) {
 			d.images(dense)
 		}
 	}
+}
+
+// concHistory: the raft loop (Save) and the snapshot goroutine (SaveSnapshot, ReleaseLockTo)
+// of node/raft.go use one WAL concurrently.  Two goroutines do that on the real WAL in
+// batches; afterwards the order in which the WAL's mutex serialized the calls is read off
+// the file (each call's records are contiguous, records appear in mutex order), the durable
+// count after each call from the sync-hook reports (taken under the same mutex), and the
+// calls are logged in that order like a sequential history.  Then Close, images, reopen.
+func (d *walDrv) concHistory() {
+	hd := filepath.Join(d.scratch, fmt.Sprintf("h%d", d.nHist))
+	os.RemoveAll(hd)
+	os.MkdirAll(hd, 0755)
+	defer os.RemoveAll(hd)
+	d.dir = filepath.Join(hd, "w")
+	d.imgBase = filepath.Join(hd, "img")
+	d.durOff = map[string]int64{}
+	d.byHash = map[[20]byte]int{}
+	d.saved = []wSnap{{0, 0}}
+	d.purgedRecs = 0
+	d.nHist++
+	d.segSize = 512 * 1024
+	wal.SegmentSizeBytes = d.segSize
+	var hookOffs []int64
+	wal.VerifSyncHook = func(file string, off int64) {
+		if dd := filepath.Dir(file); dd != d.dir && dd != d.dir+".tmp" {
+			return
+		}
+		d.durOff[filepath.Base(file)] = off
+		hookOffs = append(hookOffs, off)
+	}
+	d.tw.Emit(trace.M{"ev": "reset", "seg": d.segSize})
+	d.opt = d.rng.Intn(2) == 0
+	w, err := wal.Create(d.dir, wMeta(1), d.opt)
+	d.w = w
+	d.post(trace.M{"ev": "create", "opt": d.opt, "meta": 1}, err)
+	if err != nil {
+		return
+	}
+	defer func() {
+		if d.w != nil {
+			func() {
+				defer func() { recover() }()
+				d.w.Close()
+			}()
+			d.w = nil
+		}
+	}()
+	m := &wMirror{termOf: map[int]int{}}
+	sz := func() int { return 8 + d.rng.Intn(180) }
+	var pendSave []wCall // saver calls whose records have not been seen in the file yet
+	var pendSnap []wSnap
+	seen := 3 // frames already attributed
+	flush := func(final bool) bool {
+		segs := d.readDir()
+		if len(segs) != 1 {
+			return false
+		}
+		fr := segs[0].frames
+		durAt := func(end int64) int {
+			var best int64
+			for _, h := range hookOffs {
+				if h <= end && h > best {
+					best = h
+				}
+			}
+			n := 0
+			for _, f := range fr {
+				if f.end <= best {
+					n++
+				}
+			}
+			return n
+		}
+		for seen < len(fr) {
+			if mk := segs[0].marks[seen]; mk.I >= 0 {
+				if len(pendSnap) == 0 || pendSnap[0] != mk {
+					d.tw.Emit(trace.M{"ev": "panic", "call": "snap", "what": "a marker record that no SaveSnapshot call wrote"})
+					return false
+				}
+				pendSnap = pendSnap[1:]
+				seen++
+				d.tw.Emit(trace.M{"ev": "snap", "i": mk.I, "t": mk.T, "err": "", "nrec": seen, "dur": durAt(fr[seen-1].end)})
+				continue
+			}
+			if len(pendSave) == 0 {
+				d.tw.Emit(trace.M{"ev": "panic", "call": "save", "what": "records that no Save call wrote"})
+				return false
+			}
+			c := pendSave[0]
+			need := len(c.ents)
+			if c.hs != (wHS{}) {
+				need++
+			}
+			if seen+need > len(fr) {
+				break // the rest of this call is still in the page writer's buffer
+			}
+			pendSave = pendSave[1:]
+			seen += need
+			ents := c.ents
+			if ents == nil {
+				ents = []wEnt{}
+			}
+			d.tw.Emit(trace.M{"ev": "save", "hs": c.hs, "ents": ents, "cut": false, "err": "", "nrec": seen, "dur": durAt(fr[seen-1].end)})
+		}
+		return true
+	}
+	for batch := 0; batch < 3+d.rng.Intn(3); batch++ {
+		var saves []wCall
+		cBefore := m.last.C
+		for k := 2 + d.rng.Intn(5); k > 0; k-- {
+			kind := []string{"zero", "commit", "commit", "term"}[d.rng.Intn(4)]
+			n := 1 + d.rng.Intn(3)
+			if kind == "term" {
+				if m.last.T >= 6 {
+					kind = "commit"
+				} else if d.rng.Intn(2) == 0 {
+					n = 0
+				}
+			}
+			saves = append(saves, m.save(kind, m.enti+1, n, false, sz))
+		}
+		var snaps []wSnap
+		// markers at indexes that were committed before this batch began
+		for i := m.maxMarker + 1; i <= cBefore && len(snaps) < 3; i += 1 + d.rng.Intn(3) {
+			snaps = append(snaps, wSnap{i, wMax(m.termOf[i], 1)})
+			m.maxMarker = i
+		}
+		ents := make([][]raftpb.Entry, len(saves))
+		for i, c := range saves {
+			for j, e := range c.ents {
+				ents[i] = append(ents[i], d.entry(e, c.size[j]))
+			}
+		}
+		pendSave = append(pendSave, saves...)
+		pendSnap = append(pendSnap, snaps...)
+		d.saved = append(d.saved, snaps...)
+		errc := make(chan string, 2)
+		go func() {
+			defer func() {
+				if e := recover(); e != nil {
+					errc <- fmt.Sprint("panic: ", e)
+					return
+				}
+			}()
+			for i, c := range saves {
+				if err := d.w.Save(raftpb.HardState{Term: uint64(c.hs.T), Vote: uint64(c.hs.V), Commit: uint64(c.hs.C)}, ents[i]); err != nil {
+					errc <- err.Error()
+					return
+				}
+				if i%2 == 0 {
+					runtime.Gosched()
+				}
+			}
+			errc <- ""
+		}()
+		go func() {
+			defer func() {
+				if e := recover(); e != nil {
+					errc <- fmt.Sprint("panic: ", e)
+					return
+				}
+			}()
+			for _, sn := range snaps {
+				if err := d.w.SaveSnapshot(walpb.Snapshot{Index: uint64(sn.I), Term: uint64(sn.T)}); err != nil {
+					errc <- err.Error()
+					return
+				}
+				if err := d.w.ReleaseLockTo(uint64(sn.I)); err != nil {
+					errc <- err.Error()
+					return
+				}
+				runtime.Gosched()
+			}
+			errc <- ""
+		}()
+		e1, e2 := <-errc, <-errc
+		d.nCalls += len(saves) + len(snaps)
+		d.nConcBatches++
+		if e1 != "" || e2 != "" {
+			d.tw.Emit(trace.M{"ev": "panic", "call": "concurrent batch", "what": e1 + e2})
+			return
+		}
+		if !flush(false) {
+			return
+		}
+	}
+	err = d.w.Close()
+	if !flush(true) || len(pendSave) > 0 || len(pendSnap) > 0 {
+		d.tw.Emit(trace.M{"ev": "panic", "call": "close", "what": "records of a returned call are not in the file after Close"})
+		return
+	}
+	d.post(trace.M{"ev": "close"}, err)
+	d.images(false)
 }
 
 func (d *walDrv) readDirNames() []string {
@@ -1361,6 +1580,7 @@ func walsim(args []string) error {
 	misname := fs.Bool("misname", false, "scripted histories: marker ahead of the log, commit, close, restart, term change with a roll (regression stage of the fixed finding C05-segment-misnamed-after-restart)")
 	nsizes := fs.Int("sizes", 0, "number of scripted size-threshold histories (default segment size, process-crash images only)")
 	sizeVariants := fs.Int("sizevariants", 1, "1: one entry > 16 MB; 2: also a history that fills the 64 MB segment; 3: also an entry just below 100 MB")
+	nconc := fs.Int("conc", 0, "number of histories in which Save and SaveSnapshot/ReleaseLockTo run in two goroutines")
 	purgeStage := fs.Bool("purge", false, "scripted histories around wal.Sync / ReleaseLockTo / the background purge / restarts")
 	hole0 := fs.Bool("hole0", false, "isolate stage of C05-crc-chain-vacuous-after-first-crc: only images whose first segment keeps nothing but its leading crc record")
 	typeFlips := fs.Bool("typeflips", false, "only bit flips in the record-type bytes (isolate stage of C05-record-type-unprotected)")
@@ -1401,6 +1621,14 @@ func walsim(args []string) error {
 			d.history(calls, *dense, *imgEvery)
 			nsim++
 		}
+	}
+	for i := 0; i < *nconc; i++ {
+		k++
+		if k%*parts != *part {
+			continue
+		}
+		d.rng = rand.New(rand.NewSource(*seed*1000003 + int64(k)))
+		d.concHistory()
 	}
 	for i := 0; i < *nsizes; i++ {
 		k++
@@ -1480,6 +1708,6 @@ func walsim(args []string) error {
 	tw.Close()
 	summary(map[string]interface{}{"driver": "walsim", "part": *part, "histories": d.nHist, "sim_histories": nsim,
 		"calls": d.nCalls, "cuts": d.nCuts, "restarts": d.nRestarts, "images": d.nImages, "by_kind": d.byKind,
-		"by_tail": d.byTail, "by_outcome": d.byOutcome, "repaired": d.nRepaired, "big_entries": d.nBigEnts, "segments_purged": d.nPurged, "releases": d.nReleases, "syncs": d.nSyncs, "max_entry_bytes": d.maxEntBytes, "events": tw.N})
+		"by_tail": d.byTail, "by_outcome": d.byOutcome, "repaired": d.nRepaired, "big_entries": d.nBigEnts, "segments_purged": d.nPurged, "concurrent_batches": d.nConcBatches, "releases": d.nReleases, "syncs": d.nSyncs, "max_entry_bytes": d.maxEntBytes, "events": tw.N})
 	return nil
 }
